@@ -35,6 +35,13 @@ for sid in sys.argv[1:]:
                       "objects of the library alive in one process (two writers, a writer and a reader, two readers), process-wide state "
                       "(static variables in C, module-level caches in Python, the current working directory, the locale), the order in "
                       "which public calls are made on one object, resource limits, and what is left on disk by an earlier run.\n\n")
+    if sid[3:] >= "h":
+        WAVE_NOTE += ("PREFER A PUBLIC ENTRY POINT OR LAYER THAT THE EARLIER SEEDS LISTED BELOW DID NOT TOUCH: convenience methods "
+                      "(read_vector, read_vector_1d, read_vector_c81d, read_metadata, read_flatdict, read_dataframe, get_properties, "
+                      "get_continuous_blocks, getters of the writer), helpers in digital_rf/util.py that the public calls go through, "
+                      "the command-line front ends (drf ls/cp/mv/ln/watch/mirror/ringbuffer: option parsing and defaults), the Python "
+                      "wrapper versus the C extension versus the C library, constructor argument validation and normalisation, "
+                      "what happens on the second call of something usually called once.\n\n")
     txt = txt.replace("DELIVERABLES, all inside", WAVE_NOTE + "DELIVERABLES, all inside", 1) if WAVE_NOTE else txt
     if prev:
         div = ("DIVERSITY: other engineers already seeded these changes for the same property — " + "; ".join('"%s"' % s for s in prev) +
